@@ -7,6 +7,6 @@ WT=/tmp/wt-eval-$$
 git -C /repo worktree add --detach "$WT" HEAD >/dev/null 2>&1 || exit 2
 if ! git -C "$WT" apply "$PATCH"; then echo "PATCH DOES NOT APPLY"; git -C /repo worktree remove --force "$WT"; exit 2; fi
 for id in "$@"; do
-  VERIF_REPO=$WT VERIF_OUT_DIR=/tmp/seed-eval-out ${TIER:+VERIF_TIER=$TIER} /verif/bin/check "$id" 2>/dev/null | grep -E "VIOLATION|KNOWN|quick:|thorough:|harness" | cut -c1-260
+  VERIF_REPO=$WT VERIF_OUT_DIR=/tmp/seed-eval-out ${TIER:+VERIF_TIER=$TIER} /verif/bin/check "$id" 2>&1 | grep -E "VIOLATION|KNOWN|quick:|thorough:|harness" | cut -c1-260
 done
 git -C /repo worktree remove --force "$WT"
